@@ -532,6 +532,15 @@ def rp_problems(case: F.Case, tracks, keys: list[int] | None = None) -> list[str
                 if v is None or not F.close(v, exp):
                     out.append(f"pos:node {n} position {v} != scaled centroid {exp}")
             elif (n, k) in fresh_vals:
+                if k == F.K_CIRC and v is not None and F.K_PERIM in active:
+                    # independent of the code's own formula: circularity = 4 pi A / P^2 (2D),
+                    # sphericity = pi^(1/3) (6 V)^(2/3) / S (3D), from the stored perimeter / surface
+                    per = tracks.get_node_attr(n, case.keyname[F.K_PERIM])
+                    size = cnt * float(np.prod(spacing))
+                    if per not in (None, 0) and np.isfinite(per):
+                        exp_c = (4 * np.pi * size / per ** 2) if case.ndim == 3 else (np.pi ** (1 / 3) * (6 * size) ** (2 / 3) / per)
+                        if np.isfinite(exp_c) and not F.close(v, float(exp_c), 1e-5):   # (the 3D surface is float32)
+                            out.append(f"shape:node {n} circularity {v} != {float(exp_c)} (from its own area {size} and perimeter {per})")
                 if not F.close(v, fresh_vals[(n, k)], 1e-9) and not (v is None and fresh_vals[(n, k)] is None):
                     out.append(f"shape:node {n} {case.keyname[k]} {v} != from-scratch {fresh_vals[(n, k)]}")
                 else:
